@@ -144,6 +144,9 @@ func NumberOfInducedPaths(g Graph, maxLength int) []int {
 		maxLength = n - 1
 	}
 	r := make([]int, n)
+	if n == 0 {
+		return r
+	}
 	type path struct {
 		p                []int
 		length           int
